@@ -373,6 +373,15 @@ func (fc *FnCtx) specCall(env *Env, e *Expr) Val {
 		return fc.evalSpec(&me, m.Body)
 	}
 	arg := func(i int) Val { return fc.evalSpec(env, e.Args[i]) }
+	if strings.HasPrefix(e.Name, "uf_") {
+		// uninterpreted specification function over integers/pointers (used to relate the
+		// results of two extern calls on the same object, e.g. BitLen and Bits)
+		var ts []*Term
+		for i := range e.Args {
+			ts = append(ts, arg(i).T)
+		}
+		return mathInt(app(e.Name, SInt, ts...))
+	}
 	switch e.Name {
 	case "len":
 		v := arg(0)
